@@ -164,6 +164,10 @@ impl<T: Socket + ?Sized> Worker<T> {
             let filled = window.fill()?;
 
             let mut retry_cnt = 0;
+            #[cfg(feature = "verif")]
+            {
+                retry_cnt = crate::verif::start_retry(retry_cnt);
+            }
             let mut time = Instant::now() - (self.timeout + TIMEOUT_BUFFER);
             loop {
                 if time.elapsed() >= self.timeout {
@@ -213,6 +217,10 @@ impl<T: Socket + ?Sized> Worker<T> {
         loop {
             let mut size;
             let mut retry_cnt = 0;
+            #[cfg(feature = "verif")]
+            {
+                retry_cnt = crate::verif::start_retry(retry_cnt);
+            }
 
             loop {
                 match self.socket.recv_with_size(self.blk_size) {
